@@ -1,8 +1,8 @@
 (** C14 - page checksums are IEEE CRC-32 and page damage is always detected.
     This file only restates lemmas proved in Util/Crc32Proofs.v (model: Util/Crc32Model.v mirroring
     src/util/crc32.c; specification: Util/Crc32Spec.v, the bit-serial IEEE 802.3 definition). *)
-From Coq Require Import NArith List.
-From Carquet Require Import Util.Crc32Spec Util.Crc32Model Util.Crc32Proofs Util.Crc32Chunk.
+From Coq Require Import NArith ZArith List Bool.
+From Carquet Require Import Gen.CrcSites_gen Util.Crc32Spec Util.Crc32Model Util.Crc32Proofs Util.Crc32Chunk Util.Crc32Sites.
 Local Open Scope N_scope.
 
 (** The slicing-by-8 implementation model equals the bit-serial standard CRC-32 on every byte string. *)
@@ -52,3 +52,31 @@ Theorem page_undamaged_accepted : forall verify has_crc body,
   page_crc_ok verify has_crc (crc32 body) body = true.
 Proof. exact page_undamaged_ok. Qed.
 Print Assumptions page_undamaged_accepted.
+
+(** Code tie of that decision.  CrcSite_guards is regenerated on every run from src/reader/page_reader.c: the
+    condition around every call of carquet_crc32, as a function of page_header.has_crc, options.verify_checksums and
+    the stored crc field.  Every site of the current source decides exactly like the model's page_crc_ok, for every
+    stored value (negative as an int32, or 0, included) ... *)
+Theorem crc_sites_decide_like_model : forall g, In g CrcSite_guards ->
+  forall has_crc verify stored_field stored_u32 body,
+    site_accepts g has_crc verify stored_field stored_u32 body = page_crc_ok verify has_crc stored_u32 body.
+Proof. exact Crc32Sites.crc_sites_decide_like_model. Qed.
+Print Assumptions crc_sites_decide_like_model.
+
+(** ... so at every site damage inside a 32-bit window is rejected under verification ... *)
+Theorem crc_sites_reject_damage : forall g, In g CrcSite_guards ->
+  forall stored_field body body', bytes body -> bytes body' ->
+    differs_in_burst 32 (bits_of_bytes body) (bits_of_bytes body') ->
+    site_accepts g true true stored_field (crc32 body) body' = false.
+Proof. exact Crc32Sites.crc_sites_reject_damage. Qed.
+Print Assumptions crc_sites_reject_damage.
+
+(** ... and no site reports an undamaged page; the list is not empty (checksums are verified somewhere). *)
+Theorem crc_sites_accept_undamaged : forall g, In g CrcSite_guards ->
+  forall has_crc verify stored_field body, site_accepts g has_crc verify stored_field (crc32 body) body = true.
+Proof. exact Crc32Sites.crc_sites_accept_undamaged. Qed.
+Print Assumptions crc_sites_accept_undamaged.
+
+Theorem crc_sites_exist : CrcSite_guards <> nil /\ length CrcSite_guards = CrcSite_count.
+Proof. exact Crc32Sites.crc_sites_nonempty. Qed.
+Print Assumptions crc_sites_exist.
